@@ -216,6 +216,9 @@ impl Port {
 
             Some(val)
         } else {
+            // Reading the (empty) receive register still acknowledges a
+            // pending Received Break / Parity Error condition.
+            self.stat &= !(STS_PER | STS_RXB);
             None
         }
     }
